@@ -258,6 +258,12 @@ def json_agreement(prog, rep):
                 rep.undecided("JSON", "schemas/event.json", f"key {k}", f"the schema constrains `{k}` with {extra}, which this analysis does not relate to the values the model emits", "aw_core/schemas/event.json")
     except Exception as e:
         rep.error(f"anchor vanished: aw_core/schemas/event.json ({e})")
+    tj = prog.func("Event.to_json_str")
+    from ..trace import deep as _deep
+
+    rj = [n for n in walk_own(tj.node) if isinstance(n, ast.Return) and n.value is not None]
+    okj = len(rj) == 1 and norm(_deep(rj[0].value, tj)) in ("json.dumps(self.to_json_dict())",)
+    rep.check(okj, "JSON", tj.short, "string form", "json.dumps(self.to_json_dict())", f"to_json_str returns `{norm(_deep(rj[0].value, tj)) if rj else ''}`: the string form is not the JSON text of to_json_dict() (extra dumps options such as default=str / sort_keys / a different dict change what a reader parses back)", tj.loc())
     eq = prog.func("Event.__eq__")
     t = norm(eq.node)
     cmp_fields = [f for f in ("timestamp", "duration", "data") if f"self.{f} == other.{f}" in t]
@@ -297,6 +303,7 @@ VARIANTS = [
     ("B other types accepted silently", M, '            raise TypeError(f"Couldn\'t parse duration of invalid type {type(duration)}")', '            self["duration"] = timedelta(0)', "DURATION"),
     ("B schema restricts id to integers (the model allows strings)", "aw_core/schemas/event.json", '\t"properties": {\n', '\t"properties": {\n\t\t"id": {"type": ["integer", "null"]},\n', "JSON"),
     ("OK schema documents id with every type the model allows", "aw_core/schemas/event.json", '\t"properties": {\n', '\t"properties": {\n\t\t"id": {"type": ["integer", "string", "null"]},\n', "ok"),
+    ("B to_json_str serialises the raw dict (datetime via default=str)", M, "        data = self.to_json_dict()\n        return json.dumps(data)", "        return json.dumps(dict(self), default=str)", "JSON"),
     ("B duration emitted as string", M, 'json_data["duration"] = self.duration.total_seconds()', 'json_data["duration"] = str(self.duration.total_seconds())', "JSON"),
     ("B timestamp emitted in local zone", M, 'json_data["timestamp"] = self.timestamp.astimezone(timezone.utc).isoformat()', 'json_data["timestamp"] = self.timestamp.astimezone().isoformat()', "JSON"),
     ("B equality ignores data", M, "                and self.data == other.data\n", "", "JSON"),
